@@ -182,6 +182,15 @@ def check(case):
     for t1, t2 in itertools.combinations(case["grid"], 2):
         a, b = docs[t1], docs[t2]
         for lab, cb in b.items():
+            if lab not in a and sm is not None and sm_model is not None and cb.cons:
+                # the same finding, cascading: EVERY key the shape has at t2 has the GONEREF signature at t1 (its winning alternative
+                # there is a reference to a shape that is not in the t1 document), so the shape lost all its constraints and was
+                # removed as empty itself
+                S_ = next((k_ for k_, v_ in sm_label_of.items() if v_ == lab), None)
+                if S_ is not None and all(k_[1] == ("nonliteral",) and oracle._goneref_sig(sm_model, S_, k_[0], t1, a, sm_label_of, cfg.get("keep_less_specific", True))
+                                          for k_ in cb.cons):
+                    kf_goneref.append((lab, "whole shape", t1, t2))
+                    continue
             if lab not in a:
                 return violation("shape %s present at t=%r but not at t=%r\n--- t1 ---\n%s\n--- t2 ---\n%s" % (lab, t2, t1, texts[t1], texts[t2]), labels, True)
             ca = a[lab]
